@@ -47,6 +47,9 @@ def run(ctx):
         check(res, rec)
         k += 1
     res.rule("I1-STEP/explicit", k)
+    from rules import hist
+    hist.run(ctx, res, 'C01')       # composition: histories through the public API against the reference model (rules/hist.py)
+    common.vacuity(res, "HISTORY", 600)
     common.vacuity(res, "I1-STEP/core", 5000)
     common.vacuity(res, "I1-STEP/explicit", 300)
     res.analysed = common.analysed(ctx, [q for q in struct.QUAL.values() if "[" not in q])
